@@ -220,10 +220,18 @@ def _select_iff_given(ctx, f, pname):
     def values(env_value):
         fnode = specialise(f.node, {pname: env_value})
         T = Terms(DefUse(prog, f, fnode=fnode))
+        scfg = CFG(fnode)
+        live_ids = scfg.reachable_normally(scfg.entry.id, avoid=set()) | {
+            scfg.entry.id}
         out = []
         for n in walk_own(fnode):
             if isinstance(n, (ast.Return, ast.Yield)) and \
                     n.value is not None:
+                try:
+                    if scfg.node_of(scfg.stmt_of(n)).id not in live_ids:
+                        continue    # dead tail behind a pruned return
+                except Exception:  # noqa: BLE001
+                    pass
                 t = T.of(n.value)
                 if env_value is None:
                     # conditional expressions on the pruned test
